@@ -114,4 +114,7 @@ UNSUPPORTED = {
     "comment_on": "COMMENT ON TABLE orders IS 'all orders';",
     "trigger": "CREATE TRIGGER trg AFTER INSERT ON orders EXECUTE PROCEDURE audit();",
     "caret": "SELECT a ^ b FROM orders;",
+    # data statements whose literals hold an escaped / doubled quote (an odd number of quote characters in the statement)
+    "insert_escaped_quote": "INSERT INTO customers (id, name) VALUES (1, 'O\\'Reilly');",
+    "insert_doubled_quote": "INSERT INTO customers (id, name) VALUES (2, 'D''Arcy');",
 }
